@@ -98,6 +98,43 @@ def rfOK : RFRow → Bool
   | .field s f r => r || knownUnread.contains (s, f)
   | .unrecognised _ => false
 
+/-- each add…ToSpec method with the member of `doc.Components` that is its kind's own map and the text it must write -/
+def addKind : List (String × String × String) := [
+  ("addSchemaToSpec", "Schemas", "#/components/schemas/"),
+  ("addParameterToSpec", "Parameters", "#/components/parameters/"),
+  ("addHeaderToSpec", "Headers", "#/components/headers/"),
+  ("addRequestBodyToSpec", "RequestBodies", "#/components/requestBodies/"),
+  ("addResponseToSpec", "Responses", "#/components/responses/"),
+  ("addSecuritySchemeToSpec", "SecuritySchemes", "#/components/securitySchemes/"),
+  ("addExampleToSpec", "Examples", "#/components/examples/"),
+  ("addLinkToSpec", "Links", "#/components/links/"),
+  ("addCallbackToSpec", "Callbacks", "#/components/callbacks/")]
+
+/-- a row of `internalizedAdd` uses the kind's own map (lookup, nil test, initialisation, store) / writes the kind's own
+prefix — the model has ONE `addCore` that looks up and stores under the cell's own collection -/
+def addRowOK : IRow → Bool
+  | .call fn what arg _ =>
+    (match addKind.find? (·.1 == fn) with
+     | some (_, m, pre) => if what == "prefix" then arg == pre else arg == m
+     | none => false)
+  | .unrecognised _ => false
+
+def rowFn : IRow → String
+  | .call fn _ _ _ => fn
+  | .unrecognised _ => ""
+def rowWhat : IRow → String
+  | .call _ what _ _ => what
+  | .unrecognised _ => "unrecognised"
+
+/-- the order of the steps inside one add…ToSpec: the existence test, the early rewrite, creation of the map, store, rewrite
+(addCallbackToSpec has no existence test: it overwrites) -/
+def addSteps (fn : String) : List String :=
+  if fn == "addCallbackToSpec" then ["niltest", "init", "prefix", "store"]
+  else ["lookup", "prefix", "niltest", "init", "store", "prefix"]
+
+def addShapeOK (rows : List IRow) : Bool :=
+  addKind.all fun e => ((rows.filter (fun r => rowFn r == e.1)).map rowWhat) == addSteps e.1
+
 def isUnrecognised : IRow → Bool
   | .unrecognised _ => true
   | _ => false
